@@ -160,7 +160,7 @@ fn zone_workload(l: &mut Local, rng: &mut Rng, ctx: &Ctx) {
 pub fn run(ctx: &Ctx) -> Report {
     let mut rep = Report::new("C14");
     rep.rule = "cases = zoned date-times obtained from every constructor (from fields + local time type, from timestamp + local time type, from timestamp + zone, from total nanoseconds with type / with zone, by projection) with offsets over the full i32 range; \
-                DateTime::new acceptance grid: 58 years x month 0..=13 x day 0..=32 x 12 time corners x 9 offsets; range-edge instants x offsets; pairs (same instant seen from two generated zones, neighbours by one nanosecond / one second, unrelated) for the comparison claims. \
+                DateTime::new acceptance grid: 58 years x month 0..=13 x day 0..=32 x 12 time corners x 9 offsets; range-edge instants x offsets; pairs (same instant seen from two generated zones, neighbours by one nanosecond / one second, unrelated) for the comparison claims; values written with second 60 (by DateTime::new and as search entries) against the next-minute spelling, timestamp constructions, projections and one-nanosecond neighbours of the same instant. \
                 The field invariant is additionally observed by the facade on every value produced by every other check's workload (c14_values_checked). distinct_nontrivial = distinct constructor inputs."
         .into();
     rep.required_classes = vec![
@@ -178,6 +178,10 @@ pub fn run(ctx: &Ctx) -> Report {
         "search_entry_valid",
         "search_entry_gap",
         "search_on_zone_with_leap_seconds",
+        "second_60_vs_next_minute_spelling",
+        "second_60_vs_projection",
+        "second_60_vs_neighbour_nanosecond",
+        "second_60_search_entry_compared",
     ];
     if let Err(e) = crate::mon::c03::self_tests() {
         rep.inconclusive.push(format!("model self-test failed: {}", e));
@@ -292,6 +296,15 @@ pub fn run(ctx: &Ctx) -> Report {
                     match k {
                         tz::datetime::FoundDateTimeKind::Normal(d) => {
                             l.class("search_entry_valid");
+                            // ordering against the same instant (and a neighbour) built from the timestamp: a
+                            // search entry keeps the requested fields, second 60 included
+                            if let Ok(same) = facade::dt_from_timespec(d.unix_time(), d.nanoseconds(), tz) {
+                                cmp_claims(l, &d, &same);
+                                cmp_claims(l, &same, &d);
+                                if d.second() == 60 {
+                                    l.class("second_60_search_entry_compared");
+                                }
+                            }
                             // same fields + same type through the field constructor: same instant
                             if let Ok(built) = facade::dt_new(d.year(), d.month(), d.month_day(), d.hour(), d.minute(), d.second(), d.nanoseconds(), *d.local_time_type()) {
                                 if built.unix_time() != d.unix_time() {
@@ -312,6 +325,76 @@ pub fn run(ctx: &Ctx) -> Report {
         }
         l.op_n("DateTime::find / find_n entries", n);
         l.distinct_hash(Fnv::new().b(z.describe().as_bytes()).get());
+    });
+    // wl 6: values written with second 60 against every other spelling of the same instant and its neighbours
+    run_cases(ctx, &mut rep, 6, ctx.n(4000, 200_000), |l, rng, _| {
+        let per = ctx.inner(40);
+        let mut n = 0;
+        for _ in 0..per {
+            let off = rand_offset(rng, false);
+            let ltt = LocalTimeType::with_ut_offset(off).unwrap();
+            // a minute boundary, spelled hh:mm:60 and (next minute):00
+            let m = rng.range(-70_000_000, 140_000_000) * 60 + if rng.chance(1, 3) { 0 } else { 86400 - 60 - rng.range(-3, 3) * 60 };
+            let m = m - m.rem_euclid(60);
+            let c = cal::civil_from_unix(m + off as i64);
+            let ns = match rng.below(4) {
+                0 => 0,
+                1 => 999_999_999,
+                _ => rng.below(1_000_000_000) as u32,
+            };
+            // m + off is the start of a local minute only when off is a multiple of 60: use the local minute start
+            let local_minute = (m + off as i64) - (m + off as i64).rem_euclid(60);
+            let c = if (m + off as i64).rem_euclid(60) == 0 { c } else { cal::civil_from_unix(local_minute) };
+            let leap = match facade::dt_new(c.year as i32, c.month, c.day, c.hour, c.minute, 60, ns, ltt) {
+                Ok(d) => d,
+                Err(_) => continue,
+            };
+            n += 1;
+            let u = leap.unix_time();
+            if u != local_minute + 60 - off as i64 {
+                l.violation("zoned date-time: second 60 is not the first second of the next minute", format!("DateTime::new({}-{}-{} {}:{}:60 offset {})", c.year, c.month, c.day, c.hour, c.minute, off), format!("unix_time {}", local_minute + 60 - off as i64), facade::fmt_dt(&leap));
+            }
+            let nx = cal::civil_from_unix(local_minute + 60);
+            if let Ok(plain) = facade::dt_new(nx.year as i32, nx.month, nx.day, nx.hour, nx.minute, 0, ns, ltt) {
+                l.class("second_60_vs_next_minute_spelling");
+                cmp_claims(l, &leap, &plain);
+                cmp_claims(l, &plain, &leap);
+                n += 2;
+            }
+            // the same instant from the timestamp, in another offset
+            let other = LocalTimeType::with_ut_offset(rand_offset(rng, false)).unwrap();
+            if let Ok(p) = facade::dt_from_timespec_and_local(u, ns, other) {
+                cmp_claims(l, &leap, &p);
+                cmp_claims(l, &p, &leap);
+                n += 2;
+            }
+            if let Ok(p) = facade::project(&leap, tz::TimeZoneRef::utc()) {
+                l.class("second_60_vs_projection");
+                cmp_claims(l, &leap, &p);
+                cmp_claims(l, &p, &leap);
+                n += 2;
+            }
+            // neighbours by one nanosecond / one second, not written with second 60
+            let (u2, ns2) = match rng.below(4) {
+                0 if ns > 0 => (u, ns - 1),
+                1 if ns < 999_999_999 => (u, ns + 1),
+                2 => (u - 1, ns),
+                _ => (u + rng.range(-1, 1), rng.below(1_000_000_000) as u32),
+            };
+            if let Ok(b) = facade::dt_from_timespec_and_local(u2, ns2, other) {
+                l.class("second_60_vs_neighbour_nanosecond");
+                cmp_claims(l, &leap, &b);
+                cmp_claims(l, &b, &leap);
+                n += 2;
+            }
+            // two values both written with second 60
+            if let Ok(leap2) = facade::dt_new(c.year as i32, c.month, c.day, c.hour, c.minute, 60, ns2, ltt) {
+                cmp_claims(l, &leap, &leap2);
+                n += 1;
+            }
+            l.distinct_hash(Fnv::new().i(u).i(ns as i64).i(off as i64).get());
+        }
+        l.op_n("second-60 comparisons", n);
     });
     rep
 }
